@@ -133,7 +133,7 @@ func loadProg(root string) (*Prog, error) {
 	packages.Visit(pkgs, nil, func(pkg *packages.Package) {
 		if strings.HasPrefix(pkg.PkgPath, modPath) {
 			for _, e := range pkg.Errors {
-				errs = append(errs, e.Error())
+				errs = append(errs, fmt.Sprintf("%s: %s", e.Pos, e.Msg))
 			}
 		}
 		p.Pkgs[pkg.PkgPath] = pkg
